@@ -720,8 +720,18 @@ func checkTSOCounters(p *Prog, r *Roles, res *Result, rule string) {
 							lfa, okfa := lc.Common().Args[0].(*ssa.FieldAddr)
 							isLoad = ln == "LoadUint64" && okfa && fieldOf(lfa) == fv
 						}
-						if g && isLoad {
-							res.ok(rule, construct, p.pos(ref.Pos()), "monotone raise: CAS(old, new) under old < new with old loaded from the counter")
+						// .. and a lost compare-and-swap is retried: the CAS sits in a loop that re-loads the counter (giving
+						// up after losing to a concurrent raise to a smaller value leaves the counter below the new value)
+						retried := false
+						if isLoad {
+							if lp := loopOf(ref.Block()); lp != nil && lp[lc.Block()] {
+								retried = true
+							}
+						}
+						if g && isLoad && !retried {
+							res.bad(rule, construct, p.pos(ref.Pos()), "the raise of the "+role+" is a single compare-and-swap that is not retried: when two Commit calls overlap (leader start and a follower sync that arrives late) the one with the larger value can lose the swap and give up, and the counter stays below the value that was to be committed (allocator below the committed revision: the next revision handed out is one reads already cover)")
+						} else if g && isLoad {
+							res.ok(rule, construct, p.pos(ref.Pos()), "monotone raise: CAS(old, new) under old < new with old loaded from the counter, retried in a loop")
 						} else {
 							res.bad(rule, construct, p.pos(ref.Pos()), "Commit moves the "+role+" without the guard old < new on the loaded value: the counter can go backwards (dealt counter: revisions handed out twice; committed counter: the read revision drops below acknowledged writes)")
 						}
